@@ -151,9 +151,15 @@ CHECKS.update({
         "valid input a>>b the returned reaction is (a++ra)>>(b++pa): the given text of each side is kept verbatim and only suffixes "
         "are appended (rule constraint incl. the added_products split, water insertion, MCS append, curation, reverts); with a "
         "dot-led suffix the '.'-tokens of the input side are exactly the first tokens of the returned side (splitOn_append_dot). "
-        "Checked on marker-bearing inputs ([H][H], [H]Br, hydroperoxides, peracids, H2O2) through the real pipeline.",
-        note=ROWNOTE + "ContainLaws (merged compound / curated reaction extend the input) and the dot-led suffix are oracle laws "
-        "evaluated on every returned row; RDKit decides 'same molecules' for input_reaction vs raw input.",
+        "Checked on marker-bearing inputs ([H][H], [H]Br, hydroperoxides, peracids, H2O2) through the real pipeline. The curation "
+        "stage (PostProcess.fit, curate_oxidation / curate_reduction, reagent templates regenerated from compounds_template.json) is "
+        "itself modelled (Model/PostProcess.lean): C02_curate_laws / C02_curate_shipped discharge the curation half of ContainLaws for "
+        "ANY functional-group and radical-count answers under safeSide (no free [O]/[H] token among the given reactants = the "
+        "property's precondition), C02_curate_tokens gives the exact token form of a curated reaction, C02_curate_no_raise says when "
+        "the stage cannot raise; real fit/__post_process vs the model on traced rows and mutated marker strings.",
+        note=ROWNOTE + "ContainLaws.merged (merged compound is '>'-free and appended) and the dot-led suffix are oracle laws "
+        "evaluated on every returned row; fgutils' functional-group answer and count_radical_atoms are PPOracle fields (theorems hold "
+        "for every answer); RDKit decides 'same molecules' for input_reaction vs raw input.",
         technique="Lean 4 proof (string algebra over List Char + stage invariant, any oracle) + differential correspondence",
         ref="§5 C02"),
     "C14": dict(
